@@ -667,7 +667,7 @@ class Model:
             dual_linear = csr_matrix(primal_linear.T)
             ndv = dual_linear.shape[1]
             dual_obj = - primal_const
-            dual_const = primal.obj.reshape((nv, ))
+            dual_const = primal.obj.reshape((nv, )).copy()
             dual_sense = np.zeros(dual_linear.shape[0])
             dual_sense[indices_free] = 1
             dual_ub = np.zeros(dual_linear.shape[1])
